@@ -225,6 +225,12 @@ def _(rnd, g, tier):
     if rnd.random() < 0.3 and ns > 1:
         m[rnd.randrange(ns), :] = 0
     nnz = int((m != 0).sum())
+    if rnd.random() < 0.2:
+        # masks are int8: flagged pixels may be -1 (or 255 seen as int8), 2, 127 ... the caller may have counted "!= 0" or,
+        # as sparseframe.from_data_mask does, "> 0"; a count the kernel disagrees with must be refused (return 4), not overrun
+        for _ in range(rnd.randint(1, 4)):
+            m[rnd.randrange(ns), rnd.randrange(nf)] = rnd.choice([-1, -1, -128, 2, 127])
+        nnz = int((m != 0).sum()) if rnd.random() < 0.5 else int((m > 0).sum())
     if rnd.random() < 0.1:
         nnz = max(1, nnz + rnd.choice([-1, 1]))  # wrong size announced: must be refused (return 4), not overrun
     if nnz < 1:
